@@ -123,7 +123,7 @@ Proof.
   - (* StreamFinish *)
     destruct (getop s o) as [c|] eqn:Ec; [|apply fsext_refl].
     assert (Hs : forall x c0, ops x = ops s -> getop x o = Some c0 -> c0 = c) by (intros x c0 E H0; eapply same_op; [exact E|exact Ec|exact H0]).
-    destruct (o_status c) eqn:Es; try apply fsext_refl; destruct (is_running s); repeat fstrip.
+    destruct (o_status c) eqn:Es; try apply fsext_refl; try destruct (fix20 (fx s)); destruct (is_running s); repeat fstrip.
     all: intros c0 H0; rewrite (Hs _ c0 eq_refl H0); apply fext_live; [intros p E; congruence|intros e E; congruence|exists []; now rewrite app_nil_r].
   - (* Advance *) repeat fstrip.
 Qed.
